@@ -115,11 +115,13 @@ class ChannelItem(EFLRItem, DimensionedItem):
         self._cast_dtype = dt
         self.representation_code.set_from_dtype(self.cast_dtype)
 
-    def set_dimension_and_repr_code_from_data(self, data: SourceDataWrapper) -> None:
-        """Determine and dimension and representation code attributes of the ChannelItem based on the source data."""
+    def forget_values_derived_from_data(self) -> None:
+        """Remove the values which were derived from the data (or defaulted from one another) at a previous write.
 
-        # what was derived from the data at a previous write describes that data, not necessarily the current one
-        # (unless the user has assigned the attribute since then: that value is theirs)
+        They describe the data written then - not necessarily the current data, nor a channel which is no longer in a frame.
+        (What the user has assigned since then is theirs, and is kept.)
+        """
+
         for derived, n_assignments in list(self._derived_from_data.items()):
             if derived == 'long_name':
                 continue  # (a default, not derived from the data: see _run_checks_and_set_defaults)
@@ -128,6 +130,11 @@ class ChannelItem(EFLRItem, DimensionedItem):
             elif getattr(self, derived)._assignments['value'] == n_assignments:
                 getattr(self, derived)._value = None
             del self._derived_from_data[derived]
+
+    def set_dimension_and_repr_code_from_data(self, data: SourceDataWrapper) -> None:
+        """Determine and dimension and representation code attributes of the ChannelItem based on the source data."""
+
+        self.forget_values_derived_from_data()
 
         sub_data = data[self.name]
         self._set_dimension_from_data(sub_data)
@@ -201,11 +208,13 @@ class ChannelItem(EFLRItem, DimensionedItem):
             logger.debug(f"Setting element limit of channel '{self.name}' to the same value "
                          f"as dimension: {self.dimension.value}")
             self.element_limit.value = self.dimension.value
+            self._derived_from_data['element_limit'] = self.element_limit._assignments['value']
 
         elif not self.dimension.value and self.element_limit.value:
             logger.debug(f"Setting dimension of channel '{self.name}' to the same value "
                          f"as element limit: {self.element_limit.value}")
             self.dimension.value = self.element_limit.value
+            self._derived_from_data['dimension'] = self.dimension._assignments['value']
 
         elif self.element_limit.value != self.dimension.value:
             if not self._compare_element_limit_vs_dimension(self.element_limit.value, self.dimension.value):
